@@ -71,7 +71,21 @@ def mask(text):
             i = j + 1
         else:
             i += 1
-    return ''.join(out)
+    # blank preprocessor directives (with their continuation lines) so that they are neither matched nor
+    # taken for part of a declaration
+    res = ''.join(out)
+    lines = res.split('\n')
+    k = 0
+    while k < len(lines):
+        if lines[k].lstrip().startswith('#'):
+            while True:
+                cont = lines[k].rstrip().endswith('\\')
+                lines[k] = ' ' * len(lines[k])
+                if not cont or k + 1 >= len(lines):
+                    break
+                k += 1
+        k += 1
+    return '\n'.join(lines)
 
 
 def match_close(m, i, open_c, close_c):
